@@ -10,7 +10,7 @@ COMP = {"A": "T", "C": "G", "G": "C", "T": "A"}
 
 
 def gen_gene(r, name="GEN", pseudogene=None, n_exons=None, n_alleles=None, fusions=None, deletion=None, custom=None,
-             cigar_indels=False, same_strand=False, allow_mnp=True, offsets=(100000000, 200000000), scale=1):
+             cigar_indels=False, same_strand=False, allow_mnp=True, offsets=(100000000, 200000000), scale=1, ascending38=False):
     pseudogene = r.random() < 0.6 if pseudogene is None else pseudogene
     n_exons = n_exons or r.randint(2, 4)
     lens = {"up": r.randint(5, 12)}
@@ -54,6 +54,10 @@ def gen_gene(r, name="GEN", pseudogene=None, n_exons=None, n_alleles=None, fusio
             p38 = [S38 + L + 1 - b + 1, S38 + L + 1 - a + 1]
         regions19[n] = g19 + (p19 if pseudogene else [])
         regions38[n] = g38 + (p38 if pseudogene else [])
+    if ascending38:
+        # the hg38 region table listed by ascending genome coordinate (for the - strand: 3' to 5'), as a curator working
+        # from a genome browser would write it; the loader orders regions itself
+        regions38 = dict(sorted(regions38.items(), key=lambda kv: kv[1][0]))
     gname, pname = name, name + "P"
     mappings = {"hg19": ["20", S19 + 1, S19 + L + 1, "+", f"M{L}"],
                 "hg38": ["20", S38 + 1, S38 + L + 1, "+" if same_strand else "-", f"M{L}"]}
